@@ -1,4 +1,5 @@
 #include "util.h"
+#include <stdarg.h>
 
 std::string
 h_url(int tr, int idx)
@@ -86,4 +87,60 @@ UAio::wait(uint64_t timeout_ns)
 	if (sim_wait_flag(&done, timeout_ns) != 0)
 		return (nng_err) -1;
 	return result;
+}
+
+// ------------------------------------------------------------- Bounded ---
+// One shared daemon watches all guarded calls in progress; it exists only
+// while there is one and polls every 250 ms of virtual time.
+static std::vector<Bounded::State *> g_bounded;
+static bool                          g_bounded_dog;
+
+static void
+bounded_watchdog(void *)
+{
+	for (;;) {
+		bool any = false;
+		for (size_t i = 0; i < g_bounded.size(); i++) { // may grow while we look (clock reads yield)
+			Bounded::State *st = g_bounded[i];
+			if (st->done)
+				continue;
+			any              = true;
+			uint64_t now     = sim_now_ns();
+			uint64_t stalled = sim_stall_total_ns() - st->stall0;
+			uint64_t used    = now - st->t0 > stalled ? now - st->t0 - stalled : 0;
+			if (used >= st->bound_ns)
+				sim_violation(st->prop, st->cls,
+				    "%s did not return within %.1f s of virtual time (thread stalls excluded)", st->what,
+				    (double) st->bound_ns / 1e9);
+		}
+		if (!any)
+			break;
+		sim_sleep_ns(250000000);
+	}
+	g_bounded.clear();
+	g_bounded_dog = false;
+}
+
+Bounded::Bounded(const char *prop, const char *cls, uint64_t bound_ns, const char *fmt, ...)
+{
+	st           = (State *) calloc(1, sizeof(State));
+	st->prop     = prop;
+	st->cls      = cls;
+	st->bound_ns = bound_ns;
+	va_list ap;
+	va_start(ap, fmt);
+	vsnprintf(st->what, sizeof(st->what), fmt, ap);
+	va_end(ap);
+	st->t0     = sim_now_ns();
+	st->stall0 = sim_stall_total_ns();
+	g_bounded.push_back(st);
+	if (!g_bounded_dog) {
+		g_bounded_dog = true;
+		sim_spawn("watchdog", bounded_watchdog, NULL, SIM_TASK_DAEMON);
+	}
+}
+
+Bounded::~Bounded()
+{
+	st->done = 1; // the state stays allocated: the watchdog may still look at it
 }
